@@ -64,6 +64,7 @@ class Ctx:
         self.analysed: dict[str, set] = {"files": set(), "functions": set(), "tables": set()}
         self.prop = ""
         self.memo: dict[Any, Any] = {}
+        self.floor_misses: list[str] = []
 
     # -- file access ---------------------------------------------------------------------
     def path(self, rel: str) -> str:
@@ -206,7 +207,8 @@ def run_rules(ctx: Ctx, prop: str, rules: list[Rule], tier: str) -> dict:
         n = len(ctx.obligations) - before
         per_rule[r.rid] = {"instances": n, "floor": r.floor, "doc": r.doc}
         if n < r.floor:
-            raise AnalysisError(
+            per_rule[r.rid]["floor_missed"] = True
+            ctx.floor_misses.append(
                 f"rule {r.rid} matched {n} instance(s), below its confirmed floor {r.floor}: "
                 "the code it is slotted on has changed shape; the rule would pass vacuously"
             )
